@@ -16,6 +16,7 @@ mod dec;
 mod enc;
 mod encs;
 mod gen;
+mod memfn;
 mod memsink;
 mod ops;
 mod props;
